@@ -3858,22 +3858,22 @@ impl Interpreter {
 
     /// Abstract Equality Comparison Algorithm (ECMAScript spec 7.2.14)
     /// Implements the == operator with type coercion
-    fn abstract_equals(&mut self, left: &JsValue, right: &JsValue) -> bool {
+    fn abstract_equals(&mut self, left: &JsValue, right: &JsValue) -> Result<bool, JsError> {
         // If types are the same, use strict equality
         if mem::discriminant(left) == mem::discriminant(right) {
-            return left.strict_equals(right);
+            return Ok(left.strict_equals(right));
         }
 
         match (left, right) {
             // 1. null == undefined and undefined == null
-            (JsValue::Undefined, JsValue::Null) | (JsValue::Null, JsValue::Undefined) => true,
+            (JsValue::Undefined, JsValue::Null) | (JsValue::Null, JsValue::Undefined) => Ok(true),
 
             // 2. Number == String: convert string to number
             (JsValue::Number(n), JsValue::String(s)) => {
-                *n == crate::value::string_to_number(s.as_str())
+                Ok(*n == crate::value::string_to_number(s.as_str()))
             }
             (JsValue::String(s), JsValue::Number(n)) => {
-                crate::value::string_to_number(s.as_str()) == *n
+                Ok(crate::value::string_to_number(s.as_str()) == *n)
             }
 
             // 3. Boolean == anything: convert boolean to number and compare again
@@ -3889,34 +3889,26 @@ impl Interpreter {
             // 4. Object == String/Number/Symbol: convert object to primitive
             (JsValue::Object(_), JsValue::Number(_) | JsValue::String(_)) => {
                 // ToPrimitive with default hint
-                match self.coerce_to_primitive(left, "default") {
-                    Ok(prim) => self.abstract_equals(&prim, right),
-                    Err(_) => false,
-                }
+                let prim = self.coerce_to_primitive(left, "default")?;
+                self.abstract_equals(&prim, right)
             }
             (JsValue::Number(_) | JsValue::String(_), JsValue::Object(_)) => {
-                match self.coerce_to_primitive(right, "default") {
-                    Ok(prim) => self.abstract_equals(left, &prim),
-                    Err(_) => false,
-                }
+                let prim = self.coerce_to_primitive(right, "default")?;
+                self.abstract_equals(left, &prim)
             }
 
             // 5. Object == Symbol: convert object to primitive
             (JsValue::Object(_), JsValue::Symbol(_)) => {
-                match self.coerce_to_primitive(left, "default") {
-                    Ok(prim) => self.abstract_equals(&prim, right),
-                    Err(_) => false,
-                }
+                let prim = self.coerce_to_primitive(left, "default")?;
+                self.abstract_equals(&prim, right)
             }
             (JsValue::Symbol(_), JsValue::Object(_)) => {
-                match self.coerce_to_primitive(right, "default") {
-                    Ok(prim) => self.abstract_equals(left, &prim),
-                    Err(_) => false,
-                }
+                let prim = self.coerce_to_primitive(right, "default")?;
+                self.abstract_equals(left, &prim)
             }
 
             // All other cases: not equal
-            _ => false,
+            _ => Ok(false),
         }
     }
 
